@@ -148,13 +148,13 @@ def phi_1D_genic(xx, nu=1.0, theta0=1.0, gamma=0, theta=None, beta=1):
         phi = 0*xx
         if gamma > -300:
             phi[1:-1] = 1./(xx[1:-1]*(1-xx[1:-1]))\
-                    * (1-exp(-2*gamma*(1-xx[1:-1])))/(1-exp(-2*gamma))
+                    * numpy.expm1(-2*gamma*(1-xx[1:-1]))/numpy.expm1(-2*gamma)
         else:
             # Avoid overflow issues for very negative gammas
             phi[1:-1] = 1./(xx[1:-1]*(1-xx[1:-1])) * exp(2*gamma*xx[1:-1])
     else:
         if gamma > -300:
-            phi = 1./(xx*(1-xx)) * (1-exp(-2*gamma*(1-xx)))/(1-exp(-2*gamma))
+            phi = 1./(xx*(1-xx)) * numpy.expm1(-2*gamma*(1-xx))/numpy.expm1(-2*gamma)
         else:
             phi = 1./(xx*(1-xx)) * exp(2*gamma*xx)
 
@@ -162,7 +162,7 @@ def phi_1D_genic(xx, nu=1.0, theta0=1.0, gamma=0, theta=None, beta=1):
         phi[0] = phi[1]
     if xx[-1] == 1:
         if gamma < 300:
-            limit = 2*gamma * exp(2*gamma)/(exp(2*gamma)-1)
+            limit = 2*gamma * exp(2*gamma)/numpy.expm1(2*gamma)
         else:
             limit = 2*gamma
         phi[-1] = limit
